@@ -322,3 +322,6 @@ func verifConstEq(a, b constant.Value) bool {
 }
 
 var _ = strings.Contains
+
+// VerifReplayInit runs before native replay: the package's own tests switch debug logging on in their init.
+func VerifReplayInit() { SetDebug(0) }
